@@ -11,6 +11,7 @@ import Sidetree.Client
 import Sidetree.Applier
 import Sidetree.Props.C07
 import Sidetree.Lemmas.Hashing
+import Sidetree.Lemmas.Framing
 
 namespace Sidetree.Props.C08
 open Sidetree Sidetree.Parser Sidetree.Client
@@ -698,6 +699,7 @@ theorem update_built_accepted (ok : HashOK H) (i : UpdateInfo) (req : Json) (k :
     (hreveal : ∃ c, Hashing.revealValue H k.toJson c = some i.revealValue)
     (htime : orc.anchorTimeOK i.anchorFrom (anchorUntil cfg i.anchorFrom i.anchorUntil) = true)
     (hread : ∀ s dh compact, i.signer = some s →
+        Hashing.calculateModelMultihash H (mkDelta i.updateCommitment i.patches).toJson i.code = some dh →
         signModel (updateSignedJson (some k) dh i.anchorFrom i.anchorUntil) s = some compact →
         parseSignedDataForUpdate cfg compact =
           some { key := some k, deltaHash := dh, anchorFrom := i.anchorFrom, anchorUntil := i.anchorUntil }) :
@@ -735,7 +737,7 @@ theorem update_built_accepted (ok : HashOK H) (i : UpdateInfo) (req : Json) (k :
                 { didSuffix := i.didSuffix, revealValue := i.revealValue, signedData := compact,
                   delta := some (mkDelta i.updateCommitment i.patches) } hds hcne hrv
                 (fun d e => by cases e; exact hwf)
-              have hsd := hread s dh compact hs hsm
+              have hsd := hread s dh compact hs hdh hsm
               have hmuc : multihashOK cfg i.updateCommitment = true := by
                 simp only [validateDelta, mkDelta] at hdelta
                 cases hpp : i.patches with
@@ -763,6 +765,7 @@ theorem recover_built_accepted (ok : HashOK H) (i : RecoverInfo) (req : Json) (k
     (horigin : orc.anchorOriginOK i.anchorOrigin = true)
     (htime : orc.anchorTimeOK i.anchorFrom (anchorUntil cfg i.anchorFrom i.anchorUntil) = true)
     (hread : ∀ s dh compact, i.signer = some s →
+        Hashing.calculateModelMultihash H (mkDelta i.updateCommitment patches).toJson i.code = some dh →
         signModel (recoverSignedJson (some k) dh i.recoveryCommitment i.anchorOrigin i.anchorFrom i.anchorUntil) s = some compact →
         parseSignedDataForRecover H cfg compact =
           some { key := some k, deltaHash := dh, recoveryCommitment := i.recoveryCommitment, anchorOrigin := i.anchorOrigin,
@@ -805,7 +808,7 @@ theorem recover_built_accepted (ok : HashOK H) (i : RecoverInfo) (req : Json) (k
                   { didSuffix := i.didSuffix, revealValue := i.revealValue, signedData := compact,
                     delta := some (mkDelta i.updateCommitment patches) } hds hcne hrv
                   (fun d e => by cases e; exact hwf)
-                have hsd := hread s dh compact hs hsm
+                have hsd := hread s dh compact hs hdh hsm
                 obtain ⟨c, hc⟩ := hreveal
                 have hrm : revealMatches H (some k) i.revealValue = true := calculated_is_valid H ok _ _ _ hc
                 refine ⟨{ type := .recover, uniqueSuffix := i.didSuffix, delta := some (mkDelta i.updateCommitment patches),
@@ -852,5 +855,116 @@ theorem deactivate_built_accepted (ok : HashOK H) (i : DeactivateInfo) (req : Js
           have hrm : revealMatches H (some k) i.revealValue = true := calculated_is_valid H ok _ _ _ hc
           refine ⟨{ type := .deactivate, uniqueSuffix := i.didSuffix, signedData := compact, revealValue := i.revealValue }, ?_, rfl, rfl, rfl⟩
           simp [parseDeactivate, signedRequestJson, hdec, hsd, htime, hrm, guard']
+
+/-! ### … and without the read-back hypothesis, for requests without an anchoring window
+
+  `Lemmas/Framing.lean` proves the read-back for number-free signed models: no anchoring window
+  (the Sidetree client never sets one), anchor origin absent or a string, a signer whose header
+  names and values are plain strings. What remains are conditions on the inputs only. -/
+
+open Sidetree.Framing in
+/-- **update, unconditional**: built by `NewUpdateRequest` without a window, signed by a fitting
+    signer with an allowed key ⇒ accepted -/
+theorem update_built_accepted_unwindowed (ok : HashOK H) (i : UpdateInfo) (req : Json) (k : Jwk) (s : Signer)
+    (hdrs : List (String × Json))
+    (hb : newUpdateRequest H i = some req) (hk : i.updateKey = some k) (hsg : i.signer = some s)
+    (hw : i.anchorFrom = 0 ∧ i.anchorUntil = 0)
+    (halg : cfg.multihashAlgorithms = [i.code])
+    (hdelta : validateDelta cfg orc (some (mkDelta i.updateCommitment i.patches)) = true)
+    (hrv : multihashOK cfg i.revealValue = true)
+    (hreveal : ∃ c, Hashing.revealValue H k.toJson c = some i.revealValue)
+    (htime : orc.anchorTimeOK 0 (anchorUntil cfg 0 0) = true)
+    (fit : SignerFits cfg s hdrs) (hkey : signingKeyOK cfg (some k) = true)
+    (hlen : ∀ dh, Hashing.calculateModelMultihash H (mkDelta i.updateCommitment i.patches).toJson i.code = some dh →
+        utf8Len dh ≤ cfg.maxOperationHashLength) :
+    ∃ p, parseUpdate H cfg orc req false = some p ∧ p.type = .update ∧ p.uniqueSuffix = i.didSuffix ∧
+      p.delta = some (mkDelta i.updateCommitment i.patches) ∧ p.revealValue = i.revealValue := by
+  obtain ⟨hf, hu⟩ := hw
+  apply update_built_accepted H cfg orc ok i req k hb hk halg hdelta hrv hreveal (by rw [hf, hu]; exact htime)
+  intro s' dh compact hs' hdh hsm
+  rw [hsg] at hs'
+  cases hs'
+  rw [hf, hu] at hsm ⊢
+  have hmok : multihashOK cfg dh = true := by
+    have hl := hlen dh hdh
+    have hc := calculated_computed_using H ok _ _ _ hdh
+    simp only [multihashOK, halg, Bool.and_eq_true, Bool.not_eq_true', decide_eq_false_iff_not, Nat.not_lt]
+    exact ⟨hl, hc⟩
+  exact update_reads_back cfg k dh s hdrs compact hsm fit hkey hmok
+
+open Sidetree.Framing in
+/-- **deactivate, unconditional** -/
+theorem deactivate_built_accepted_unwindowed (ok : HashOK H) (i : DeactivateInfo) (req : Json) (k : Jwk) (s : Signer)
+    (hdrs : List (String × Json))
+    (hb : newDeactivateRequest i = some req) (hk : i.recoveryKey = some k) (hsg : i.signer = some s)
+    (hw : i.anchorFrom = 0 ∧ i.anchorUntil = 0)
+    (hrv : multihashOK cfg i.revealValue = true)
+    (hreveal : ∃ c, Hashing.revealValue H k.toJson c = some i.revealValue)
+    (htime : orc.anchorTimeOK 0 (anchorUntil cfg 0 0) = true)
+    (fit : SignerFits cfg s hdrs) (hkey : signingKeyOK cfg (some k) = true) :
+    ∃ p, parseDeactivate H cfg orc req false = some p ∧ p.type = .deactivate ∧ p.uniqueSuffix = i.didSuffix ∧
+      p.revealValue = i.revealValue := by
+  obtain ⟨hf, hu⟩ := hw
+  apply deactivate_built_accepted H cfg orc ok i req k hb hk hrv hreveal (by rw [hf, hu]; exact htime)
+  intro s' compact hs' hsm
+  rw [hsg] at hs'
+  cases hs'
+  rw [hf, hu] at hsm ⊢
+  exact deactivate_reads_back cfg k i.didSuffix s hdrs compact hsm fit hkey
+
+open Sidetree.Framing in
+/-- **recover, unconditional** (anchor origin absent or a string; the commitments must differ —
+    the condition `NewRecoverRequest` does not enforce, D11) -/
+theorem recover_built_accepted_unwindowed (ok : HashOK H) (i : RecoverInfo) (req : Json) (k : Jwk) (s : Signer)
+    (hdrs : List (String × Json)) (patches : List Json) (ao : Option String)
+    (hb : newRecoverRequest H i = some req) (hk : i.recoveryKey = some k) (hsg : i.signer = some s)
+    (hw : i.anchorFrom = 0 ∧ i.anchorUntil = 0) (hao : i.anchorOrigin = ao.map Json.str)
+    (hp : patchesOf i.opaqueDoc i.patches = some patches)
+    (halg : cfg.multihashAlgorithms = [i.code])
+    (hdelta : validateDelta cfg orc (some (mkDelta i.updateCommitment patches)) = true)
+    (hne : i.updateCommitment ≠ i.recoveryCommitment)
+    (hrv : multihashOK cfg i.revealValue = true)
+    (hreveal : ∃ c, Hashing.revealValue H k.toJson c = some i.revealValue)
+    (horigin : orc.anchorOriginOK i.anchorOrigin = true)
+    (htime : orc.anchorTimeOK 0 (anchorUntil cfg 0 0) = true)
+    (fit : SignerFits cfg s hdrs) (hkey : signingKeyOK cfg (some k) = true)
+    (hrc : multihashOK cfg i.recoveryCommitment = true)
+    (hlen : ∀ dh, Hashing.calculateModelMultihash H (mkDelta i.updateCommitment patches).toJson i.code = some dh →
+        utf8Len dh ≤ cfg.maxOperationHashLength) :
+    ∃ p, parseRecover H cfg orc req false = some p ∧ p.type = .recover ∧ p.uniqueSuffix = i.didSuffix ∧
+      p.delta = some (mkDelta i.updateCommitment patches) ∧ p.revealValue = i.revealValue ∧ p.anchorOrigin = i.anchorOrigin := by
+  obtain ⟨hf, hu⟩ := hw
+  -- the builder's own key-reuse check gives the parser's
+  have hfresh : commitmentFresh H k i.recoveryCommitment = true := by
+    unfold newRecoverRequest at hb
+    by_cases h0 : i.didSuffix = "" ∨ i.revealValue = ""
+    · rw [if_pos h0] at hb; cases hb
+    · rw [if_neg h0] at hb
+      by_cases h00 : ((i.opaqueDoc.isNone && i.patches.isEmpty) || (i.opaqueDoc.isSome && !i.patches.isEmpty)) = true
+      · rw [if_pos h00] at hb; cases hb
+      · rw [if_neg h00] at hb
+        simp only [hk, hsg] at hb
+        by_cases h1 : (!signerOK (some s)) = true ∨ (!k.valid) = true
+        · rw [if_pos h1] at hb; cases hb
+        · rw [if_neg h1] at hb
+          simp only [hp] at hb
+          cases hdh : Hashing.calculateModelMultihash H (mkDelta i.updateCommitment patches).toJson i.code with
+          | none => simp [hdh] at hb
+          | some dh =>
+            simp only [hdh] at hb
+            cases hcd : commitmentDiffers H k i.code i.recoveryCommitment with
+            | false => simp [hcd] at hb
+            | true => exact fresh_of_differs H cfg k i.code i.recoveryCommitment halg hrc hcd
+  apply recover_built_accepted H cfg orc ok i req k patches hb hk hp hdelta hne hrv hreveal horigin (by rw [hf, hu]; exact htime)
+  intro s' dh compact hs' hdh hsm
+  rw [hsg] at hs'
+  cases hs'
+  rw [hf, hu, hao] at hsm ⊢
+  have hmok : multihashOK cfg dh = true := by
+    have hl := hlen dh hdh
+    have hc := calculated_computed_using H ok _ _ _ hdh
+    simp only [multihashOK, halg, Bool.and_eq_true, Bool.not_eq_true', decide_eq_false_iff_not, Nat.not_lt]
+    exact ⟨hl, hc⟩
+  exact recover_reads_back H cfg k dh i.recoveryCommitment ao s hdrs compact hsm fit hkey hmok hrc hfresh
 
 end Sidetree.Props.C08
